@@ -340,6 +340,112 @@ theorem scatter_eq_scatterBy (floor : α → Int) (g : Grid α) :
       | some c' => exact ih c'
 end bridge
 
+/-! ### extent of the observations and the grid built on it -/
+section extent
+variable {α : Type} [Field α] [LinearOrder α] [IsStrictOrderedRing α] [FloorRing α]
+
+theorem foldMin_spec (l : List α) : ∀ m0 : α,
+    (l.foldl (fun m v => if v < m then v else m) m0 = m0 ∨ l.foldl (fun m v => if v < m then v else m) m0 ∈ l)
+    ∧ l.foldl (fun m v => if v < m then v else m) m0 ≤ m0
+    ∧ ∀ v ∈ l, l.foldl (fun m v => if v < m then v else m) m0 ≤ v := by
+  induction l with
+  | nil => intro m0; simp
+  | cons a r ih =>
+    intro m0
+    simp only [List.foldl_cons]
+    by_cases h : a < m0
+    · simp only [h, ↓reduceIte]
+      obtain ⟨h1, h2, h3⟩ := ih a
+      refine ⟨?_, le_trans h2 h.le, ?_⟩
+      · rcases h1 with e | e
+        · right; rw [e]; exact List.mem_cons_self
+        · right; exact List.mem_cons_of_mem _ e
+      · intro v hv
+        rcases List.mem_cons.1 hv with e | e
+        · rw [e]; exact h2
+        · exact h3 v e
+    · simp only [h, ↓reduceIte]
+      obtain ⟨h1, h2, h3⟩ := ih m0
+      refine ⟨?_, h2, ?_⟩
+      · rcases h1 with e | e
+        · left; exact e
+        · right; exact List.mem_cons_of_mem _ e
+      · intro v hv
+        rcases List.mem_cons.1 hv with e | e
+        · rw [e]; exact le_trans h2 (not_lt.1 h)
+        · exact h3 v e
+
+theorem foldMax_spec (l : List α) : ∀ m0 : α,
+    (l.foldl (fun m v => if m < v then v else m) m0 = m0 ∨ l.foldl (fun m v => if m < v then v else m) m0 ∈ l)
+    ∧ m0 ≤ l.foldl (fun m v => if m < v then v else m) m0
+    ∧ ∀ v ∈ l, v ≤ l.foldl (fun m v => if m < v then v else m) m0 := by
+  induction l with
+  | nil => intro m0; simp
+  | cons a r ih =>
+    intro m0
+    simp only [List.foldl_cons]
+    by_cases h : m0 < a
+    · simp only [h, ↓reduceIte]
+      obtain ⟨h1, h2, h3⟩ := ih a
+      refine ⟨?_, le_trans h.le h2, ?_⟩
+      · rcases h1 with e | e
+        · right; rw [e]; exact List.mem_cons_self
+        · right; exact List.mem_cons_of_mem _ e
+      · intro v hv
+        rcases List.mem_cons.1 hv with e | e
+        · rw [e]; exact h2
+        · exact h3 v e
+    · simp only [h, ↓reduceIte]
+      obtain ⟨h1, h2, h3⟩ := ih m0
+      refine ⟨?_, h2, ?_⟩
+      · rcases h1 with e | e
+        · left; exact e
+        · right; exact List.mem_cons_of_mem _ e
+      · intro v hv
+        rcases List.mem_cons.1 hv with e | e
+        · rw [e]; exact le_trans (not_lt.1 h) h2
+        · exact h3 v e
+
+theorem minOf_spec (l : List α) (hne : l ≠ []) : ∃ m, minOf l = some m ∧ m ∈ l ∧ ∀ v ∈ l, m ≤ v := by
+  cases l with
+  | nil => exact absurd rfl hne
+  | cons a r =>
+    obtain ⟨h1, h2, h3⟩ := foldMin_spec r a
+    refine ⟨_, rfl, ?_, ?_⟩
+    · rcases h1 with e | e
+      · rw [e]; exact List.mem_cons_self
+      · exact List.mem_cons_of_mem _ e
+    · intro v hv
+      rcases List.mem_cons.1 hv with e | e
+      · rw [e]; exact h2
+      · exact h3 v e
+
+theorem maxOf_spec (l : List α) (hne : l ≠ []) : ∃ m, maxOf l = some m ∧ m ∈ l ∧ ∀ v ∈ l, v ≤ m := by
+  cases l with
+  | nil => exact absurd rfl hne
+  | cons a r =>
+    obtain ⟨h1, h2, h3⟩ := foldMax_spec r a
+    refine ⟨_, rfl, ?_, ?_⟩
+    · rcases h1 with e | e
+      · rw [e]; exact List.mem_cons_self
+      · exact List.mem_cons_of_mem _ e
+    · intro v hv
+      rcases List.mem_cons.1 hv with e | e
+      · rw [e]; exact h2
+      · exact h3 v e
+
+/-- the grid built by the constructor on a box of positive width and height is well formed and covers the box -/
+theorem mkGrid_wf (bx0 bx1 by0 by1 rx ry margin : α) (hx : bx0 < bx1) (hy : by0 < by1)
+    (hrx : 0 < rx) (hry : 0 < ry) (hm : 0 ≤ margin) :
+    WF (mkGrid Int.ceil bx0 bx1 by0 by1 rx ry margin)
+    ∧ (mkGrid Int.ceil bx0 bx1 by0 by1 rx ry margin).xmin ≤ bx0 ∧ bx1 ≤ (mkGrid Int.ceil bx0 bx1 by0 by1 rx ry margin).xmax
+    ∧ (mkGrid Int.ceil bx0 bx1 by0 by1 rx ry margin).ymin ≤ by0 ∧ by1 ≤ (mkGrid Int.ceil bx0 bx1 by0 by1 rx ry margin).ymax := by
+  have hdx : 0 ≤ margin * (bx1 - bx0) := mul_nonneg hm (by linarith)
+  have hdy : 0 ≤ margin * (by1 - by0) := mul_nonneg hm (by linarith)
+  refine ⟨⟨hrx, hry, ?_, ?_, rfl, rfl⟩, ?_, ?_, ?_, ?_⟩ <;> simp only [mkGrid] <;> linarith
+
+end extent
+
 /-! ### the cell operators -/
 section aggr
 variable {α : Type}
